@@ -45,6 +45,8 @@ func init() {
 				NeedCounters: []string{"attached", "detached", "closed-during-attaching", "hook-closed-at-attached", "id-wrap-crossed"}},
 			{Name: fmt.Sprintf("listener-xpair-hist-D%d", d), Mode: "hist", Reset: kit.ResetGlobals, Body: func() { listenerHist(xpair.NewProtocol, d) },
 				NeedCounters: []string{"attached", "refused-by-protocol"}},
+			{Name: fmt.Sprintf("listener-hook-replaced-hist-D%d", d-1), Mode: "hist", Reset: kit.ResetGlobals, Body: func() { hookSwapHist(d - 1) },
+				NeedCounters: []string{"attached", "detached", "hook-replaced-with-live-pipes", "event-after-hook-replacement"}},
 			{Name: fmt.Sprintf("dialer-xpub-hist-D%d", d), Mode: "hist", Reset: kit.ResetGlobals, Body: func() { dialerHist(d) },
 				NeedCounters: []string{"attached", "detached", "redialled", "redial-refused"}},
 			{Name: fmt.Sprintf("two-dialers-xpair-hist-D%d", d-1), Mode: "hist", Reset: kit.ResetGlobals, Body: func() { twoDialersHist(d - 1) },
@@ -106,6 +108,7 @@ type pstate struct {
 }
 
 type world struct {
+	gen     int // generation of the installed event hook (hook-replacement histories)
 	sock    mangos.Socket
 	ep      *vt.Endpoint
 	pipes   map[mangos.Pipe]*pstate
@@ -319,6 +322,89 @@ func listenerHist(mk func() protocol.Protocol, depth int) {
 	kit.Hist(depth, events, w.settle)
 	w.finish()
 }
+
+// hookSwapHist: listener histories in which the application replaces the socket's event hook while
+// connections exist.  SetPipeEventHook returns the hook it replaces; once it has returned, every
+// event - also those of pipes that were attached under an earlier hook - goes to the new hook and
+// none to a replaced one, so the per-pipe grammar holds over the hooks taken together.
+func hookSwapHist(depth int) {
+	w := newWorld(xpub.NewProtocol, "vt://lst")
+	w.ep = vt.Get("lst")
+	var install func() mangos.PipeEventHook
+	lastSeen := -1
+	install = func() mangos.PipeEventHook {
+		w.gen++
+		g := w.gen
+		return func(ev mangos.PipeEvent, p mangos.Pipe) {
+			if ev == probeEvent { // the harness asks a hook value which generation it is
+				lastSeen = g
+				return
+			}
+			if g != w.gen {
+				kit.Failf("event-to-replaced-hook", "event %d of pipe %08x went to hook #%d after SetPipeEventHook had installed hook #%d", ev, p.ID(), g, w.gen)
+			}
+			if g > 1 {
+				kit.Count("event-after-hook-replacement")
+			}
+			lastSeen = g
+			w.hook(ev, p)
+		}
+	}
+	cur := install()
+	w.sock.SetPipeEventHook(cur)
+	if err := w.sock.Listen("vt://lst"); err != nil {
+		kit.Failf("setup", "Listen: %s", kit.ErrName(err))
+	}
+	swaps := 0
+	events := func() []kit.Event {
+		var evs []kit.Event
+		for _, pol := range []string{"", "close-at-attached"} {
+			pol := pol
+			evs = append(evs, kit.Event{Name: "connect:" + pol, Run: func() {
+				w.policy = append(w.policy, pol)
+				w.ep.Connect()
+			}})
+		}
+		n := 0
+		for i := range w.list {
+			i := i
+			vp := w.ep.PipeAt(i)
+			if vp == nil || !vp.Alive() || n >= 2 {
+				continue
+			}
+			n++
+			evs = append(evs, kit.Event{Name: fmt.Sprintf("peer-drop:%d", i), Run: func() { vp.DropNow() }})
+			evs = append(evs, kit.Event{Name: fmt.Sprintf("app-close:%d", i), Run: func() {
+				kit.Must("Pipe.Close", func() { _ = w.list[i].p.Close() })
+			}})
+		}
+		if swaps < 2 {
+			evs = append(evs, kit.Event{Name: "replace-hook", Run: func() {
+				swaps++
+				if n > 0 {
+					kit.Count("hook-replaced-with-live-pipes")
+				}
+				next := install()
+				var old mangos.PipeEventHook
+				kit.Must("SetPipeEventHook", func() { old = w.sock.SetPipeEventHook(next) })
+				lastSeen = -1
+				if old != nil {
+					old(probeEvent, nil)
+				}
+				if lastSeen != w.gen-1 {
+					kit.Failf("previous-hook-not-returned", "SetPipeEventHook returned hook #%d (-1: none), the hook it replaced is #%d", lastSeen, w.gen-1)
+				}
+				cur = next
+			}})
+		}
+		return evs
+	}
+	kit.Hist(depth, events, w.settle)
+	w.finish()
+	_ = cur
+}
+
+const probeEvent = mangos.PipeEvent(-77)
 
 func dialerHist(depth int) {
 	w := newWorld(xpub.NewProtocol, "vt://dl")
